@@ -6,6 +6,7 @@
      commit x   — x builds a new counterparty commitment (with the updates it newly announces)
      sendRaa x  — x releases the revoke_and_ack it owes
      recv y     — y processes the oldest undelivered message of the peer→y stream (FIFO)
+     fee x f    — the funder x decides on a new feerate f (update_fee; it leaves with x's next commit)
      disconnect — the connection drops: everything on the wire is lost, both nodes mark the channel paused
      reest y    — y processes the peer's channel_reestablish and schedules its retransmissions
    so that every interleaving of the two FIFO streams, with disconnections at any point, is an event list.
@@ -32,7 +33,21 @@ structure Commit where
   htlcs : List (Bool × Nat × Nat)
   /-- value_to_self of the party that BUILT this view (msat, before fees) -/
   builderBalance : Nat
+  /-- feerate_per_kw the transaction is built with -/
+  feerate : Nat
   deriving DecidableEq, Repr, Inhabited
+
+/-- FeeUpdateState of `pending_update_fee` -/
+inductive FeeState where
+  | outbound | remoteAnnounced | awaitingRemoteRevokeToAnnounce
+  deriving DecidableEq, Repr, Inhabited
+
+/-- mirrors the `pending_update_fee` arm of build_commitment_transaction: is the pending feerate the one to use? -/
+def FeeState.included (st : FeeState) (generatedByLocal : Bool) : Bool :=
+  match st with
+  | .remoteAnnounced => !generatedByLocal
+  | .awaitingRemoteRevokeToAnnounce => !generatedByLocal
+  | .outbound => generatedByLocal
 
 inductive Msg where
   | add (id amt : Nat)
@@ -40,6 +55,7 @@ inductive Msg where
   | fail (id : Nat)
   | cs (c : Commit)
   | raa
+  | fee (f : Nat)
   deriving DecidableEq, Repr, Inhabited
 
 /-- one party's view of the channel -/
@@ -56,6 +72,9 @@ structure Node where
   raaSent : Nat
   raaRecv : Nat
   paused : Bool           -- ChannelState PEER_DISCONNECTED (set on disconnect, cleared by channel_reestablish)
+  isFunder : Bool         -- funding.is_outbound(): only the funder sends update_fee
+  feerate : Nat           -- feerate_per_kw
+  pendingFee : Option (Nat × FeeState)   -- pending_update_fee
   deriving DecidableEq, Repr, Inhabited
 
 structure Sys where
@@ -72,14 +91,23 @@ structure Sys where
   total : Nat             -- channel value in msat
   /-- ghost: did every commitment_signed processed so far match the receiver's own view? -/
   agreed : Bool
+  /-- ghost: did every commitment_signed processed so far carry the feerate the receiver computes for its own transaction? -/
+  feeAgreed : Bool
   deriving Repr, Inhabited
 
-def Node.init (v : Nat) : Node :=
+def Node.init (v : Nat) (funder : Bool) (f0 : Nat) : Node :=
   { valueToSelf := v, inb := [], outb := [], awaitingRaa := false, owesRaa := 0, nextOutId := 0, nextInId := 0,
-    csSent := 0, csRecv := 0, raaSent := 0, raaRecv := 0, paused := false }
+    csSent := 0, csRecv := 0, raaSent := 0, raaRecv := 0, paused := false, isFunder := funder, feerate := f0, pendingFee := none }
 
-def Sys.init (va vb : Nat) : Sys :=
-  { a := Node.init va, b := Node.init vb, qab := [], qba := [], pendA := [], pendB := [], needRaaA := 0, needRaaB := 0, total := va + vb, agreed := true }
+/-- `a` is the funder; `f0` the feerate the channel was opened with -/
+def Sys.init (va vb : Nat) (f0 : Nat := 0) : Sys :=
+  { a := Node.init va true f0, b := Node.init vb false f0, qab := [], qba := [], pendA := [], pendB := [], needRaaA := 0, needRaaB := 0, total := va + vb, agreed := true, feeAgreed := true }
+
+/-- the feerate of a commitment built now: the pending one iff its state says so -/
+def Node.viewFeerate (n : Node) (generatedByLocal : Bool) : Nat :=
+  match n.pendingFee with
+  | some (f, st) => if st.included generatedByLocal then f else n.feerate
+  | none => n.feerate
 
 /-- mirrors ChannelContext::build_commitment_transaction's HTLC selection and claimed-value adjustment.
     `local_` = is this the builder's own transaction; the result lists HTLCs as (offered by broadcaster?). -/
@@ -90,7 +118,8 @@ def Node.buildView (n : Node) (local_ generatedByLocal : Bool) : Commit :=
   let claimedToRemote := ((n.outb.filter (fun h => !(h.st.included generatedByLocal) && h.st.hasPreimage)).map (·.amt)).sum
   -- inbound HTLCs are offered by the peer: offered-by-broadcaster iff the broadcaster is the peer (local_ = false)
   { htlcs := inIncl.map (fun h => (!local_, h.id, h.amt)) ++ outIncl.map (fun h => (local_, h.id, h.amt)),
-    builderBalance := n.valueToSelf + claimedToSelf - claimedToRemote }
+    builderBalance := n.valueToSelf + claimedToSelf - claimedToRemote,
+    feerate := n.viewFeerate generatedByLocal }
 
 def sumAmt (l : List (Bool × Nat × Nat)) : Nat := (l.map (fun x => x.2.2)).sum
 
@@ -116,6 +145,9 @@ inductive Ev where
   | release (x : Bool)
   | sendRaa (x : Bool)
   | recv (y : Bool)
+  /-- the funder x picks a new feerate (send_update_fee: `pending_update_fee = (f, Outbound)`); the update_fee
+      message leaves with the commitment x builds next -/
+  | fee (x : Bool) (f : Nat)
   /-- peer_disconnected on both nodes; messages on the wire are lost -/
   | disconnect
   /-- y processes the peer's channel_reestablish (after a reconnection) -/
@@ -134,11 +166,26 @@ def Node.addOut (n : Node) (amts : List Nat) : Node × List Msg :=
     (({ m with outb := m.outb ++ [{ id := m.nextOutId, amt := amt, st := .localAnnounced }], nextOutId := m.nextOutId + 1 } : Node),
      acc.2 ++ [Msg.add m.nextOutId amt])) (n, [])
 
+/-- AwaitingRemoteRevokeToAnnounce fee update -> Committed (build_commitment_no_status_check and revoke_and_ack) -/
+def Node.promoted (n : Node) : Nat × Option (Nat × FeeState) :=
+  match n.pendingFee with
+  | some (f, .awaitingRemoteRevokeToAnnounce) => (f, none)
+  | _ => (n.feerate, n.pendingFee)
+def Node.promoteFee (n : Node) : Node := { n with feerate := n.promoted.1, pendingFee := n.promoted.2 }
+
+/-- the update_fee of a batch: present iff our own fee update is pending -/
+def Node.feeMsgs (n : Node) : List Msg :=
+  match n.pendingFee with
+  | some (f, .outbound) => [Msg.fee f]
+  | _ => []
+
 /-- mirrors build_commitment_no_status_check: rewrites, then the counterparty view, then AwaitingRemoteRevoke -/
 def Node.commit (n : Node) (adds fulfills fails : List Nat) : Option (Node × List Msg) :=
   if n.awaitingRaa then none else
   -- removals must target inbound HTLCs that are irrevocably committed
   if !(fulfills ++ fails).all (fun id => n.inb.any (fun h => h.id = id && h.st == .committed)) then none else
+  -- an inbound fee update whose commitment_signed we have received takes effect when we build (AwaitingRemoteRevokeToAnnounce -> feerate_per_kw)
+  let n := n.promoteFee
   let (n1, addMsgs) := n.addOut adds
   let inb1 := fulfills.foldl (fun l id => setIn l id (fun _ => .localRemoved true)) n1.inb
   let inb2 := fails.foldl (fun l id => setIn l id (fun _ => .localRemoved false)) inb1
@@ -146,7 +193,7 @@ def Node.commit (n : Node) (adds fulfills fails : List Nat) : Option (Node × Li
                              outb := n1.outb.map (fun (h : OutHtlc) => { h with st := h.st.onBuildCommitment }) }
   let c := n2.buildView false true
   some ({ n2 with awaitingRaa := true, csSent := n2.csSent + 1 },
-        addMsgs ++ fulfills.map Msg.fulfill ++ fails.map Msg.fail ++ [Msg.cs c])
+        n.feeMsgs ++ addMsgs ++ fulfills.map Msg.fulfill ++ fails.map Msg.fail ++ [Msg.cs c])
 
 /-- mirrors the HTLC part of FundedChannel::revoke_and_ack -/
 def Node.onRaa (n : Node) : Option Node :=
@@ -163,8 +210,13 @@ def Node.onRaa (n : Node) : Option Node :=
     | .localAnnounced => { h with st := .committed }
     | .awaitingRemoteRevokeToRemove ok => { h with st := .awaitingRemovedRemoteRevoke ok }
     | _ => h)
+  -- Outbound and AwaitingRemoteRevokeToAnnounce fee updates become the committed feerate
+  let (fr, pf) := match n.pendingFee with
+    | some (f, .outbound) => (f, none)
+    | some (f, .awaitingRemoteRevokeToAnnounce) => (f, none)
+    | pf => (n.feerate, pf)
   some { n with inb := inb, outb := outb, awaitingRaa := false, raaRecv := n.raaRecv + 1,
-                valueToSelf := n.valueToSelf + gained - lost }
+                valueToSelf := n.valueToSelf + gained - lost, feerate := fr, pendingFee := pf }
 
 /-- process one incoming message; the Bool is "commitment agreed" (true for non-cs messages) -/
 def Node.onMsg (n : Node) (total : Nat) (m : Msg) : Option (Node × Bool) :=
@@ -180,8 +232,13 @@ def Node.onMsg (n : Node) (total : Nat) (m : Msg) : Option (Node × Bool) :=
       let ok := viewsAgree total c mine
       some ({ n with inb := n.inb.map (fun (h : InHtlc) => { h with st := h.st.onCommitmentSigned }),
                      outb := n.outb.map (fun (h : OutHtlc) => { h with st := h.st.onCommitmentSigned }),
-                     owesRaa := n.owesRaa + 1, csRecv := n.csRecv + 1 }, ok)
+                     owesRaa := n.owesRaa + 1, csRecv := n.csRecv + 1,
+                     pendingFee := match n.pendingFee with
+                       | some (f, .remoteAnnounced) => some (f, .awaitingRemoteRevokeToAnnounce)
+                       | pf => pf }, ok)
   | .raa => (n.onRaa).map (fun n' => (n', true))
+  -- FundedChannel::update_fee: only the non-funder accepts it
+  | .fee f => if n.isFunder then none else some ({ n with pendingFee := some (f, .remoteAnnounced) }, true)
 
 /-- mirrors FundedChannel::remove_uncommitted_htlcs_and_mark_paused: inbound RemoteAnnounced HTLCs are dropped
     (and `next_counterparty_htlc_id` rewound), outbound RemoteRemoved revert to Committed; idempotent -/
@@ -190,10 +247,12 @@ def Node.pause (n : Node) : Node :=
   { n with inb := n.inb.filter (fun h => h.st != .remoteAnnounced),
            nextInId := n.nextInId - (n.inb.filter (fun h => h.st == .remoteAnnounced)).length,
            outb := n.outb.map (fun (h : OutHtlc) => match h.st with | .remoteRemoved _ => { h with st := .committed } | _ => h),
+           pendingFee := (match n.pendingFee with | some (_, .remoteAnnounced) => none | pf => pf),
            paused := true }
 
 /-- mirrors get_last_commitment_update_for_send: the last update batch, regenerated from the current state -/
 def Node.lastBatch (n : Node) : List Msg :=
+  n.feeMsgs ++
   (n.outb.filter (fun h => h.st == .localAnnounced)).map (fun h => Msg.add h.id h.amt) ++
   (n.inb.filter (fun h => h.st == .localRemoved true)).map (fun h => Msg.fulfill h.id) ++
   (n.inb.filter (fun h => h.st == .localRemoved false)).map (fun h => Msg.fail h.id) ++
@@ -214,8 +273,19 @@ def Node.reestablish (n : Node) (peerCsRecv peerRaaRecv : Nat) : Option (Node ×
   some ({ n with paused := false, raaSent := peerRaaRecv, owesRaa := n.csRecv - peerRaaRecv },
         n.retrans peerCsRecv)
 
+/-- does an incoming commitment_signed carry the feerate the receiver computes for its own transaction? -/
+def Node.feeOk (n : Node) : Msg → Bool
+  | .cs c => c.feerate == n.viewFeerate false
+  | _ => true
+
 def step (s : Sys) (e : Ev) : Option Sys :=
   match e with
+  | .fee true f =>
+      if s.a.paused || !s.a.isFunder || s.a.awaitingRaa || s.pendA ≠ [] || s.a.pendingFee.isSome then none
+      else some { s with a := { s.a with pendingFee := some (f, .outbound) } }
+  | .fee false f =>
+      if s.b.paused || !s.b.isFunder || s.b.awaitingRaa || s.pendB ≠ [] || s.b.pendingFee.isSome then none
+      else some { s with b := { s.b with pendingFee := some (f, .outbound) } }
   | .disconnect => some { s with a := s.a.pause, b := s.b.pause, qab := [], qba := [] }
   | .reest true => (s.a.reestablish s.b.csRecv s.b.raaRecv).map (fun (n, p) => { s with a := n, pendA := p })
   | .reest false => (s.b.reestablish s.a.csRecv s.a.raaRecv).map (fun (n, p) => { s with b := n, pendB := p })
@@ -233,12 +303,14 @@ def step (s : Sys) (e : Ev) : Option Sys :=
       if s.a.paused then none else
       match s.qba with
       | [] => none
-      | m :: rest => (s.a.onMsg s.total m).map (fun (n, ok) => { s with a := n, qba := rest, agreed := s.agreed && ok })
+      | m :: rest => (s.a.onMsg s.total m).map (fun (n, ok) =>
+          { s with a := n, qba := rest, agreed := s.agreed && ok, feeAgreed := s.feeAgreed && s.a.feeOk m })
   | .recv false =>
       if s.b.paused then none else
       match s.qab with
       | [] => none
-      | m :: rest => (s.b.onMsg s.total m).map (fun (n, ok) => { s with b := n, qab := rest, agreed := s.agreed && ok })
+      | m :: rest => (s.b.onMsg s.total m).map (fun (n, ok) =>
+          { s with b := n, qab := rest, agreed := s.agreed && ok, feeAgreed := s.feeAgreed && s.b.feeOk m })
 
 /-- run an event list; `none` = some event was not enabled (the trace is not a protocol run) -/
 def run (s : Sys) : List Ev → Option Sys
